@@ -31,14 +31,18 @@ from . import c10
 
 ID = "C07"
 LEVEL = "exploration"
-RULE = ("Hypothesis draws histories of <=30 (quick) / <=50 (thorough) public operations over a shared "
-        "pool: declarations, refinements with valid/contradictory/ill-typed arguments, declarations "
-        "from caller-owned lists/dicts, from_native/substitute/validate with caller-owned values, "
-        "mutation of those containers after use, +, |, %, ~ (seeded), represent, make_required, "
-        "indexing, iteration, ==, mutation of generated values, and repetition of logged operations. "
-        "distinct = canonical JSON of the history; non-trivial = the history contains a "
-        "caller-container mutation after use, or a raising refinement, followed by >=1 further "
-        "operation")
+RULE = ("Hypothesis draws histories (a fixed 8-operation prefix that fills the pool, then 8-40 drawn operations) "
+        "over a shared pool of schemas and caller-owned containers: declarations, refinements taken from the C10 call "
+        "universe of the receiver's type (valid / contradictory / ill-typed), declarations from caller-owned lists and "
+        "dicts, from_native / substitute / validate with caller-owned values (plain, holding an unconvertible leaf, or "
+        "instances of dict subclasses), mutation and repair of those containers after use, +, + with an empty operand, "
+        "|, %, ~ (seeded), represent, make_required, indexing, iteration, ==, mutation of generated values, construction "
+        "of visitors of one's own with non-default options, and repetition of logged operations. Oracles after every "
+        "step: snapshot of every pooled schema (independent canon, repr, verdicts on 16 probe values) unchanged; every "
+        "caller-owned container equal to its snapshot; a repeated operation gives the same outcome; and the same "
+        "operation on equal inputs, evaluated by a forked child of a history-free server process (pbt/pristine.py), "
+        "gives the same outcome. distinct = canonical JSON of the history; non-trivial = the history contains a "
+        "caller-container mutation after use, or a raising refinement, followed by >=1 further operation")
 ASSUMPTIONS = ["sequential histories only (d42 has no threads and the property does not quantify over interleavings)",
                "observable behaviour of a schema = independent canon + repr + verdicts on a fixed probe set"]
 BUDGET = {"quick": (300, 4), "thorough": (1500, 16)}
